@@ -13,7 +13,6 @@ Fixpoint run_obs_pet (m : mach) (cs : list Z) : list Z :=
               | MOk m1 => obs 0 (mt m1) ++ run_obs_pet m1 r
               | MErr m1 => obs 1 (mt m1) ++ run_obs_pet m1 r
               | MPanic s => [-1; s]
-              | MDiverge => [-2]
               end
   end.
 Definition run_term_pet (w h : Z) (cs : list Z) : list Z := run_obs_pet (init 0 false w h) cs.
@@ -25,7 +24,6 @@ Fixpoint run_cls_pet (m : mach) (cs : list Z) (i nok nerr ferr : Z) : list Z :=
               | MOk m1 => run_cls_pet m1 r (i + 1) (nok + 1) nerr ferr
               | MErr m1 => run_cls_pet m1 r (i + 1) nok (nerr + 1) (if ferr <? 0 then i else ferr)
               | MPanic s => [-1; s]
-              | MDiverge => [-2]
               end
   end.
 Definition run_c01_pet (w h : Z) (cs : list Z) : list Z := run_cls_pet (init 0 false w h) cs 0 0 0 (-1).
